@@ -576,20 +576,73 @@ def _join_expr(tr: Tr, e, arg: str):
 
 
 def _raw(tr: Tr, side: dict) -> list[str]:
+    """RawFileSystem: which normalisation of the name / folder reaches `self._resolve_path(...)` in each entry point
+    (the directory itself is the OS's business: os.path.isfile / open / os.walk on the resolved path)."""
     cls = tr.classes.get('RawFileSystem')
     if cls is None:
         tr.err(tr.tree, 'RawFileSystem not found')
-    for m in ('_get_file', '_file_exists'):
-        src = ast.unparse(tr.method(cls, m))
-        if 'os.path.isfile(self._resolve_path(name))' not in src:
-            tr.err(cls, f'RawFileSystem.{m} does not test os.path.isfile(self._resolve_path(name))')
+
+    def resolve_ops(mname: str, param: str, os_call: str) -> list[str]:
+        fn = tr.method(cls, mname)
+        env = {param: (param, [])}
+        found: list[list[str]] = []
+        os_seen = False
+
+        def visit(stmts):
+            nonlocal os_seen
+            for st in stmts:
+                if isinstance(st, ast.Expr) and isinstance(st.value, ast.Constant):
+                    continue
+                if isinstance(st, ast.If) and ast.unparse(st.test) == f'isinstance({param}, File)' and not st.orelse \
+                        and len(st.body) == 1 and ast.unparse(st.body[0]) == f'{param} = self._get_data({param})':
+                    continue      # a File of this system carries its own (already listed) path
+                own = [v for f, v in ast.iter_fields(st) if f not in ('body', 'orelse', 'finalbody', 'handlers')]
+                for v in own:
+                    for node in (ast.walk(v) if isinstance(v, ast.AST) else
+                                 [n for x in v if isinstance(x, ast.AST) for n in ast.walk(x)] if isinstance(v, list) else ()):
+                        if isinstance(node, ast.Call) and _dotted(node.func) == 'self._resolve_path':
+                            if len(node.args) != 1 or node.keywords:
+                                tr.err(node, f'RawFileSystem.{mname}: unrecognised _resolve_path call')
+                            base, ops = tr.expr(node.args[0], env)
+                            if base != param:
+                                tr.err(node, f'RawFileSystem.{mname}: resolves {base}, not the {param} argument')
+                            found.append(ops)
+                        if isinstance(node, ast.Call) and _dotted(node.func) == os_call:
+                            os_seen = True
+                if isinstance(st, (ast.Assign, ast.AnnAssign)):
+                    tr._stmt(st, env)
+                for fld in ('body', 'orelse', 'finalbody'):
+                    sub = getattr(st, fld, None)
+                    if isinstance(sub, list):
+                        visit(sub)
+
+        visit(fn.body)
+        if not found or not os_seen:
+            tr.err(fn, f'RawFileSystem.{mname} does not pass self._resolve_path(...) to {os_call}')
+        for o in found[1:]:
+            if o != found[0]:
+                tr.err(fn, f'RawFileSystem.{mname}: different normalisations reach _resolve_path')
+        return found[0]
+
+    g = resolve_ops('_get_file', 'name', 'os.path.isfile')
+    e = resolve_ops('_file_exists', 'name', 'os.path.isfile')
+    o = resolve_ops('open_bin', 'name', 'open')
+    ostr = resolve_ops('open_str', 'name', 'open')
+    if ostr != o:
+        tr.err(cls, f'RawFileSystem: open_str and open_bin normalise differently: {ostr} vs {o}')
+    w = resolve_ops('walk_folder', 'folder', 'os.walk')
     src = ast.unparse(tr.method(cls, 'walk_folder'))
-    need = ['self._resolve_path(folder)', 'os.walk(path)', 'os.path.relpath(os.path.join(dirpath, file), self.path)']
-    for n in need:
+    for n in ['os.walk(path)', "os.path.relpath(os.path.join(dirpath, file), self.path).replace('\\\\', '/')",
+              'yield File(self, rel_path, rel_path)']:
         if n not in src:
             tr.err(cls, f'RawFileSystem.walk_folder: missing {n}')
-    side['raw'] = 'os.path.isfile / os.walk / relpath to self.path'
-    return ['Definition raw_is_os_exact : bool := true.']
+    side['raw'] = {'get': g, 'exists': e, 'open': o, 'walk_folder': w,
+                   'os': 'os.path.isfile / open / os.walk on self._resolve_path(...); listed names relative to self.path'}
+    return ['Definition raw_is_os_exact : bool := true.',
+            f'Definition raw_get_ops : list sop := {_coq_ops(g)}.',
+            f'Definition raw_exists_ops : list sop := {_coq_ops(e)}.',
+            f'Definition raw_open_ops : list sop := {_coq_ops(o)}.',
+            f'Definition raw_walk_ops : list sop := {_coq_ops(w)}.']
 
 
 def translate() -> tuple[str, dict]:
